@@ -256,9 +256,7 @@ func (d *Decoder) readUntypedMap() (interface{}, error) {
 	return m, nil
 }
 
-func (d *Decoder) readMap(dest reflect.Value) error {
-	tag, _ := d.readTag()
-
+func (d *Decoder) readMap(dest reflect.Value, tag byte) error {
 	switch tag {
 	case _nilTag:
 		return nil
